@@ -61,6 +61,12 @@ pub fn one_input(target: &str, data: &[u8]) {
     STATE.with(|s| {
         let mut s = s.borrow_mut();
         if s.is_none() {
+            // libfuzzer-sys installs a panic hook that aborts the process; panics of
+            // the code under test (and the harness's own contained panics) are caught
+            // and judged by the engines, so the hook is replaced by a silent one.  A
+            // panic that escapes `one_input` still aborts (libfuzzer-sys wraps the
+            // target in catch_unwind + abort), which is how a violation is reported.
+            std::panic::set_hook(Box::new(|_| {}));
             let (check, n_tapes) = check_for(target, p);
             *s = Some(State {
                 check,
